@@ -6,6 +6,7 @@ supply and land sub-systems with legal connections, plus forcing with zeros, dry
 spells and bursts.  `build` instantiates it on the implementation in exact (Ex) or
 float mode.  Every random choice derives from the random.Random passed in."""
 import copy
+import random
 from fractions import Fraction as F
 
 import pandas as pd
@@ -355,6 +356,9 @@ def gen_overrides(g, r):
     treatment volume shares, demand figures, capacities.  Returns [{"node" | "arc": name, "surface": index, "values": {..}}]"""
     out = []
     adds, _ = g.pols()
+    # hydraulic choices from a generator of their own (seeded from the hydraulic stream once), pollutant choices from the
+    # pollutant stream: the same seed gives the same hydraulic overrides under every pollutant configuration
+    r, rp = random.Random(r.random()), g.rp
     for n in g.nodes:
         cls = cls_of(n)
         if r.random() >= 0.6:
@@ -363,7 +367,7 @@ def gen_overrides(g, r):
             for i, sf in enumerate(n["surfaces"]):
                 if sf["type_"] in ("ImperviousSurface", "PerviousSurface") and r.random() < 0.7:
                     v = {"area": sf["area"] * r.choice([F(1, 2), F(2), F(5, 2)])}
-                    if sf.get("pollutant_load") and r.random() < 0.5:
+                    if sf.get("pollutant_load") and rp.random() < 0.5:
                         v["pollutant_load"] = {k: x * 3 for k, x in sf["pollutant_load"].items()}
                     out.append({"node": n["name"], "surface": i, "values": v})
         elif cls == "River":
